@@ -1425,3 +1425,14 @@ V("C04", "subset-keeps-empty-chains", TOPF_, "    newTopology._chains = [c for c
 V("C04", "twin-copy-mapping-renamed", TOPF_, None, None, None, edits=[("                    atom_mapping[atom] = out.add_atom(atom.name, atom.element, r, serial=atom.serial)\n\n        for bond in self.bonds:\n            a1, a2 = bond\n            out.add_bond(atom_mapping[a1], atom_mapping[a2], type=bond.type, order=bond.order)",
   "                    new_atom = out.add_atom(atom.name, atom.element, r, serial=atom.serial)\n                    old_to_new[atom] = new_atom\n\n        for first, second in self.bonds:\n            pass\n        for bond in self.bonds:\n            out.add_bond(old_to_new[bond[0]], old_to_new[bond[1]], order=bond.order, type=bond.type)"),
   ("        out = Topology()\n        atom_mapping = {}\n        for chain in self.chains:\n            c = out.add_chain(chain.chain_id)", "        out = Topology()\n        old_to_new = {}\n        for chain in self.chains:\n            c = out.add_chain(chain.chain_id)")])
+
+# ---- twin round 12: parse_selection.__call__ decided by evaluation on a model parser (c12._call_by_evaluation)
+V("C12", "source-unparsed-from-the-untransformed-node", "mdtraj/core/selection.py", "        source = unparse(astnode)", "        source = unparse(parse_result[0].ast())", "C12-R5")
+V("C12", "integer-literal-exempt-from-the-single-literal-check", "mdtraj/core/selection.py", "astnode.value not in {True, False, None}:",
+  "astnode.value not in {True, False, None} and not isinstance(astnode.value, int):", "C12-R6")
+V("C12", "single-literal-check-dropped", "mdtraj/core/selection.py", "        if isinstance(astnode, ast.Constant) and astnode.value not in {True, False, None}:", "        if False:", "C12-R6")
+V("C12", "twin-parsed-node-transformed-without-copy", "mdtraj/core/selection.py", "self.transformer.visit(deepcopy(parse_result[0].ast()))", "self.transformer.visit(parse_result[0].ast())", None)
+V("C12", "twin-source-before-the-lambda", "mdtraj/core/selection.py", "        func = ast.Expression(body=ast.Lambda(signature, astnode))\n        source = unparse(astnode)",
+  "        source = unparse(astnode)\n        func = ast.Expression(body=ast.Lambda(signature, astnode))", None)
+# ---- C04-R8 defers to C04-R9 when the removal of the empty ones is not in the body: the order is still decided (by value)
+V("C04", "chains-never-renumbered-after-subset", "mdtraj/core/topology.py", "    for i, chain in enumerate(newTopology.chains):\n        chain.index = i", "    for i, chain in enumerate(newTopology.chains):\n        pass", "C04-R8")
